@@ -84,6 +84,26 @@ func factsDeliver() {
 	} else {
 		unrec(g, "creatorServesSessionEvenIfReplyFails", "dispatchConnection not found")
 	}
+	// the WebSocket responder must come back when the upgrade fails (otherwise dispatchConnection is parked in it for ever and the
+	// path above is never reached on that transport): every way out of ServeHTTP reports, a connection net/http closes without
+	// an upgrade reports, and the responder returns the error
+	{
+		okH, okR := false, false
+		if h := fnOf(sv, "wsHandshakeHandler.ServeHTTP"); h != nil {
+			evs := rawEvents(h)
+			iUp := idx(evs, 0, "assign", `:= upgrader\.Upgrade\(`)
+			iErr := idx(evs, iUp, "if", `^err != nil$`)
+			iEnd := matchingEnd(evs, iErr)
+			okH = iUp >= 0 && iErr > iUp && iEnd > iErr && countIn(evs, iErr, iEnd, "call", `^ws\.done\(err\)$`) == 1 &&
+				idx(evs, iEnd, "call", `^ws\.done\(nil\)$`) > iEnd
+		}
+		if mr := fnOf(sv, "WebSocket.makeResponder"); mr != nil {
+			t := show(mr.Body)
+			okR = strings.Contains(t, "state == http.StateClosed") && strings.Contains(t, "handler.done(errWsNotUpgraded)") &&
+				strings.Contains(t, "if err = <-handler.finished; err != nil") && strings.Contains(t, "originalConn.Close()")
+		}
+		boolFact(g, "wsResponderReportsFailedUpgrade", okH && okR, "WebSocket responder: a failed or never attempted upgrade is reported and the responder returns an error")
+	}
 	// the relay at the application's end: common.Copy closes BOTH connections when it returns, whichever direction ended and
 	// why; RouteTCP runs one Copy per direction; Stream.ReadFrom (what Copy(stream, localConn) runs) gives up with an error
 	// when the stream has been closed, AFTER it has taken bytes from the application
